@@ -5,6 +5,7 @@ from __future__ import annotations
 import numpy as np
 from hypothesis import strategies as st
 
+from job_shop_lib.dispatching import HistoryObserver, UnscheduledOperationsObserver
 from job_shop_lib.dispatching.feature_observers import (
     CompositeFeatureObserver,
     FeatureType,
@@ -19,7 +20,7 @@ RULE = (
     "Generated: instance (all shapes; with a filter installed only positive "
     "durations) x one observer of each of the 7 built-in types (generated "
     "feature-type subset, created through class / enum / string spelling, in "
-    "generated order, all before the first dispatch) + 0-2 extra observers x "
+    "generated order, all before the first dispatch) + 0-2 extra observers, optionally with a built-in unscheduled-operations / history observer subscribed among them, x "
     "optional filter composition x choice sequence, with the built-in rules / "
     "scoring functions optionally called between dispatches (read-only "
     "consumers of the observers); composites over generated "
@@ -80,6 +81,7 @@ def _cases(draw, tier):
     return {
         "inst": inst,
         "filters": filters,
+        "bystanders": draw(gen.pick([0, 1, 0, 3, 0, 2])),
         "observers": base + extra,
         "composite": comp,
         "composite_cfgs": draw(obs.feature_configs(min_size=1, max_size=4)),
@@ -159,7 +161,19 @@ def check_case(case, ctx):
     drv = Driver(inst, filters)
     d, m = drv.dispatcher, drv.model
     flexible = any(len(ms) > 1 for row in inst["machines"] for ms in row)
-    observers = [obs.make_feature_observer(d, cfg) for cfg in case["observers"]]
+    # other built-in observers may share the dispatcher, subscribed among the
+    # feature observers (an environment also has a history / unscheduled
+    # operations observer and a reward)
+    bystanders = case.get("bystanders", 0)
+    observers = []
+    for i, cfg in enumerate(case["observers"]):
+        observers.append(obs.make_feature_observer(d, cfg))
+        if i == 0 and bystanders & 1:
+            UnscheduledOperationsObserver(d)
+        if i == 0 and bystanders & 2:
+            HistoryObserver(d)
+    if bystanders:
+        ctx.label("bystander_observers")
     for o, cfg in zip(observers, case["observers"]):
         ctx.check(
             type(o) is obs.CLASSES[cfg[0]]
